@@ -1,0 +1,13 @@
+//go:build verif
+
+package object
+
+// VerifCrashHook, when set by a verification harness, is called after each binding written by SaveGlobals.
+// Only built with -tags verif.
+var VerifCrashHook func(point string)
+
+func verifCrashPoint(point string) {
+	if VerifCrashHook != nil {
+		VerifCrashHook(point)
+	}
+}
